@@ -387,6 +387,20 @@ INSERT INTO z SELECT i, i%%13, CASE i%%3 WHEN 0 THEN 'k'||(i%%5) WHEN 1 THEN 'K'
 			}
 			return st
 		}()},
+		{"objects-sharing-a-name", []string{
+			// triggers have a namespace of their own; a view / trigger / index may carry a name that is looked up as another kind
+			`CREATE TABLE track (id INTEGER PRIMARY KEY, title, plays)`,
+			`CREATE TRIGGER track_plays AFTER INSERT ON track BEGIN SELECT 1; END`,
+			`CREATE TRIGGER track AFTER DELETE ON track BEGIN SELECT 1; END`,
+			`CREATE INDEX track_plays ON track (plays DESC, title)`,
+			`CREATE INDEX track_title ON track (title)`,
+			`INSERT INTO track VALUES (1, 'a', 5), (2, 'b', 9), (3, 'c', 1), (4, 'd', 9), (5, 'e', NULL)`,
+			`CREATE VIEW v_track AS SELECT * FROM track`,
+			`CREATE TRIGGER track_title BEFORE UPDATE ON track BEGIN SELECT 2; END`,
+			`CREATE TABLE w2 (k PRIMARY KEY, v) WITHOUT ROWID`,
+			`CREATE TRIGGER w2 AFTER INSERT ON w2 BEGIN SELECT 3; END`,
+			`INSERT INTO w2 VALUES ('x', 1), ('y', 2)`,
+		}},
 		{"empty-objects", []string{
 			`CREATE TABLE e (a, b)`,
 			`CREATE INDEX e_b ON e (b)`,
